@@ -1,18 +1,18 @@
-SPECIFICATION Spec
+SPECIFICATION RSpec
 CONSTANTS
   NVB = 1
   InitLog <- EmptyLog
-  MaxSeq = 2
-  Keys = {"user"}
-  Kinds = {"mut", "adv"}
-  OldEvents = FALSE
-  BadEvents = FALSE
+  MaxSeq = 4
+  Keys = {"user", "conn", "txn"}
+  Kinds = {"mut", "del", "exp", "sys", "adv"}
+  OldEvents = TRUE
+  BadEvents = TRUE
   FoUuid <- Fo10
   Savers = {"p"}
-  MaxSaves = 0
+  MaxSaves = 10
   MaxCrash = 0
-  MaxAcks = 0
-  MaxGen = 2
+  MaxAcks = 10
+  MaxGen = 4
   MaxNotify = 0
   MaxEnds = 0
   MaxFail = 0
@@ -27,18 +27,17 @@ CONSTANTS
   Rollbacks = FALSE
   FailSaves = FALSE
   Focus = TRUE
-  Record = FALSE
+  Record = TRUE
   ReadOnly = FALSE
   RM = TRUE
   Slots = 2
   RmUuids = {1, 2}
-  RmMonotone = FALSE
+  RmMonotone = TRUE
   Scrapes = FALSE
   HookScrapes = FALSE
   Marking = FALSE
   WindAt = 0
   Gaps = {}
   Bugs = {}
-VIEW view
-INVARIANTS C07 C16 C01 C02 C03 C04 C05 C06 C08 C11 C12 C13 C14 C15 StoreAgrees
+INVARIANTS DumpSched
 CHECK_DEADLOCK FALSE
